@@ -10,7 +10,9 @@
 //!
 //! usage: h_justice run <seed:u64> <n_scenarios> <flags>
 //!        h_justice replay '{"seed":..,"k":..,"flags":".."}'
-//! flags: comma list of reload,styles,late | all | none
+//! flags: comma list of reload,styles,late | all | none; plus `rtquirk` (never implied by `all`): do not
+//!        steer around two artefacts of the test-only monitor round-trip assertion (see `run_scenario`);
+//!        with it some scenarios end in `"panic":"... assertion failed: new_monitor == *monitor"`.
 //! stdout: one line `R {json}` per scenario (TestLogger floods stdout with everything else).
 //! stderr: histogram at the end.
 //!
@@ -22,6 +24,24 @@
 //!    `feerate` = fee * 1000 / weight (sat per kw, rounded down).
 //!  * commitment numbers count DOWN from 2^48-1; a capture is revoked iff its number is strictly
 //!    greater than A's current one; `age` = cheated number - current number.
+//!  * `updates[i].u` counts from 1; `captures[j].u` is the update after which it was taken (0 = before
+//!    the first). A capture with `"mid":true` was taken in the middle of update `u` (A has called
+//!    claim_funds, nothing delivered yet): same commitment as the capture before it, but A's monitor
+//!    knows the preimage, so `htlc_txs` also holds the HTLC-success transaction. `pending` is the
+//!    driver's own list of HTLCs in flight (dust ones included, they have no output).
+//!  * HTLCs A offers expire at even heights, HTLCs B offers at odd heights (see `run_scenario`).
+//!  * `blocks[i]`: `h` = B's height afterwards, `n` = blocks connected in this step (only the last one
+//!    can carry transactions: `mined`, in block order), `phase` in age (A waits for its HTLC-timeouts
+//!    to become final before cheating) | skip | cheat | cheat2 (A's second-stage txs in the next block)
+//!    | idle | wait | drive (B's txs) | a_wins (one of A's second-stage txs instead) | final |
+//!    final_mine. `bcast` = what B handed to its broadcaster during the step, sorted by txid, each with
+//!    `rebroadcast` (same txid seen before), `copies`, `already_confirmed`. `events` sorted.
+//!  * `cheat.S` = A's second-stage transactions it tries to confirm, `cheat.timing` in none | same_block
+//!    | next_block | race. `S_held_back`: members of S the driver refused to confirm at least once
+//!    because of the round-trip artefact (2) described in `run_scenario`.
+//!  * `unspent`: outputs of the revoked commitment and of A's confirmed second-stage transactions that
+//!    nothing spent on the simulated chain (B's own to_remote output is expected here; it is reported
+//!    in `spendable` instead).
 use std::cell::RefCell;
 use std::collections::{BTreeMap, HashMap, HashSet};
 use std::mem::ManuallyDrop;
@@ -203,6 +223,7 @@ struct Rec {
 	s_race_won: u64,
 	s_lost: u64,
 	aged: bool,
+	held_back: Vec<String>,
 	reloads: u64,
 	justice: u64,
 	rebroadcasts: u64,
@@ -220,10 +241,12 @@ struct Flags {
 	reload: bool,
 	styles: bool,
 	late: bool,
+	/// NOT part of `all`: do not steer around the monitor round-trip quirk (see `run_scenario`)
+	rtquirk: bool,
 }
 impl Flags {
 	fn parse(s: &str) -> Flags {
-		let mut f = Flags { raw: s.to_string(), reload: false, styles: false, late: false };
+		let mut f = Flags { raw: s.to_string(), reload: false, styles: false, late: false, rtquirk: false };
 		for t in s.split(',') {
 			match t.trim() {
 				"all" => {
@@ -234,6 +257,7 @@ impl Flags {
 				"reload" => f.reload = true,
 				"styles" => f.styles = true,
 				"late" => f.late = true,
+				"rtquirk" => f.rtquirk = true,
 				_ => {},
 			}
 		}
@@ -289,6 +313,7 @@ struct World {
 	fee: u32,
 	fee0: u32,
 	connected: bool,
+	rtquirk: bool,
 	captures: Vec<Capture>,
 	known: HashMap<Txid, Transaction>,
 }
@@ -422,13 +447,19 @@ impl World {
 			.find(|d| d.channel_id == self.chan_id)
 			.and_then(|d| d.short_channel_id)
 			.ok_or_else(|| "no scid".to_string())?;
+		// HTLCs A offers expire at even heights, HTLCs B offers at odd heights (see `run_scenario` on the
+		// monitor round-trip quirk for why the two directions never share an expiry)
+		let mut delta = TEST_FINAL_CLTV;
+		if !self.rtquirk && (self.nodes[a].best_block_info().1 + 1 + delta) % 2 != a as u32 {
+			delta += 1;
+		}
 		let hops = vec![RouteHop {
 			pubkey: self.ids[b],
 			node_features: self.nodes[b].node.node_features(),
 			short_channel_id: scid,
 			channel_features: self.nodes[b].node.channel_features(),
 			fee_msat: amt,
-			cltv_expiry_delta: TEST_FINAL_CLTV,
+			cltv_expiry_delta: delta,
 			maybe_announced_channel: true,
 		}];
 		self.pay_ctr += 1;
@@ -442,7 +473,7 @@ impl World {
 			Err(_) => return Err("create_inbound_payment".to_string()),
 		};
 		let route_params =
-			RouteParameters::from_payment_params_and_value(PaymentParameters::from_node_id(self.ids[b], TEST_FINAL_CLTV), amt);
+			RouteParameters::from_payment_params_and_value(PaymentParameters::from_node_id(self.ids[b], delta), amt);
 		let route = Route { paths: vec![Path { hops, blinded_tail: None }], route_params };
 		let onion = RecipientOnionFields::secret_only(secret, amt);
 		let mut id = [0u8; 32];
@@ -625,7 +656,7 @@ impl World {
 	}
 
 	/// B's view of every commitment transaction of A it has signed, newest last (numbers descending).
-	fn mon_commitments(&self) -> Vec<String> {
+	fn mon_commitments(&self) -> (Vec<String>, HashMap<u64, Vec<(bool, u32, u32)>>) {
 		let mon = self.nodes[1].chain_monitor.chain_monitor.get_monitor(self.chan_id).unwrap();
 		let mut all: Vec<CommitmentTransaction> = Vec::new();
 		if let Some(c) = mon.initial_counterparty_commitment_tx() {
@@ -640,7 +671,15 @@ impl World {
 			}
 		}
 		all.sort_by(|x, y| y.commitment_number().cmp(&x.commitment_number()));
-		all.iter()
+		let mut by_number: HashMap<u64, Vec<(bool, u32, u32)>> = HashMap::new();
+		for c in all.iter() {
+			by_number.insert(
+				c.commitment_number(),
+				c.nondust_htlcs().iter().map(|h| (h.offered, h.cltv_expiry, h.transaction_output_index.unwrap_or(u32::MAX))).collect(),
+			);
+		}
+		let json = all
+			.iter()
 			.map(|c| {
 				let t = c.trust();
 				let mut htlcs: Vec<(u32, String)> = c
@@ -674,7 +713,8 @@ impl World {
 					t.built_transaction().transaction.output.len()
 				)
 			})
-			.collect()
+			.collect();
+		(json, by_number)
 	}
 
 	/// Restarts B from its serialized manager and monitors.
@@ -768,6 +808,14 @@ struct Chain {
 	a_remaining: Vec<Transaction>,
 	/// txids whose outputs are watched for the justice statistics
 	cheat_txids: HashSet<Txid>,
+	commit_txid: Txid,
+	/// Steering around round-trip artefact (2), see `run_scenario`: the inputs `(vout, offered)` of B's
+	/// justice package that mixes HTLCs of both directions, in the order the package holds them, and
+	/// the direction of the input all others were merged into. Empty if there is no such package.
+	g_inputs: Vec<(u32, bool)>,
+	g_cluster_offered: bool,
+	steer: bool,
+	held_back: Vec<String>,
 }
 
 impl Chain {
@@ -824,6 +872,55 @@ impl Chain {
 		true
 	}
 
+	/// May A confirm `tx` now without tripping the test-only round-trip assertion? Updates `g` (the
+	/// package's input list) as if it were mined.
+	fn a_take(&self, tx: &Transaction, g: &mut Vec<(u32, bool)>) -> bool {
+		if !self.steer {
+			return true;
+		}
+		let mut g2 = g.clone();
+		for i in tx.input.iter() {
+			if i.previous_output.txid != self.commit_txid {
+				continue;
+			}
+			if let Some(pos) = g2.iter().position(|(v, _)| *v == i.previous_output.vout) {
+				let (_, offered) = g2.remove(pos);
+				// the package split off keeps the cluster of the package it came from
+				if offered != self.g_cluster_offered {
+					return false;
+				}
+				// what remains is re-read with the cluster of its first input
+				if let Some((_, first_offered)) = g2.first() {
+					if *first_offered != self.g_cluster_offered {
+						return false;
+					}
+				}
+			}
+		}
+		*g = g2;
+		true
+	}
+
+	/// A's transactions out of `cands` that may confirm at `h` on top of `block`, in order.
+	fn take_a(&mut self, cands: &[Transaction], h: u32, block: &mut Vec<Transaction>) -> usize {
+		let mut g = self.g_inputs.clone();
+		let mut n = 0;
+		for t in cands.iter() {
+			if self.mineable(t, h, block) {
+				if self.a_take(t, &mut g) {
+					block.push(t.clone());
+					n += 1;
+				} else {
+					let id = t.compute_txid().to_string();
+					if !self.held_back.contains(&id) {
+						self.held_back.push(id);
+					}
+				}
+			}
+		}
+		n
+	}
+
 	/// Drops B's unconfirmed transactions that can never confirm any more.
 	fn prune(&mut self) {
 		loop {
@@ -865,6 +962,9 @@ impl Chain {
 			self.conf.insert(txid, h);
 			for i in t.input.iter() {
 				self.spent.insert(i.previous_output, txid);
+				if i.previous_output.txid == self.commit_txid {
+					self.g_inputs.retain(|(v, _)| *v != i.previous_output.vout);
+				}
 			}
 		}
 		self.prune();
@@ -1024,6 +1124,9 @@ fn after_block(w: &mut World, chain: &mut Chain, rec: &Rc<RefCell<Rec>>, phase: 
 	chain.prune();
 	let mined_ids: Vec<String> = mined.iter().map(|t| t.compute_txid().to_string()).collect();
 	let balances = balances_b(w);
+	// the manager walks randomly keyed maps when it fails HTLCs: canonical order
+	let mut events = d.events.clone();
+	events.sort();
 	let mut r = rec.borrow_mut();
 	r.spendable.extend(d.spendable.iter().cloned());
 	r.blocks.push(format!(
@@ -1033,7 +1136,7 @@ fn after_block(w: &mut World, chain: &mut Chain, rec: &Rc<RefCell<Rec>>, phase: 
 		phase,
 		jstrs(&mined_ids),
 		jarr(&bcast),
-		jstrs(&d.events),
+		jstrs(&events),
 		d.msgs,
 		d.mon_added,
 		jarr(&d.spendable),
@@ -1097,6 +1200,7 @@ fn run_scenario(seed: u64, k: u64, flags: &Flags, rec: &Rc<RefCell<Rec>>) {
 		fee: fee0,
 		fee0,
 		connected: true,
+		rtquirk: flags.rtquirk,
 		captures: Vec::new(),
 		known: HashMap::new(),
 	});
@@ -1138,7 +1242,7 @@ fn run_scenario(seed: u64, k: u64, flags: &Flags, rec: &Rc<RefCell<Rec>>) {
 	}
 	rec.borrow_mut().n_updates = u;
 	rec.borrow_mut().doing = "mon_commitments".to_string();
-	let mc = w.mon_commitments();
+	let (mc, mon_htlcs) = w.mon_commitments();
 	rec.borrow_mut().mon_commitments = mc;
 
 	// ---------------- the cheat ----------------
@@ -1209,6 +1313,11 @@ fn run_scenario(seed: u64, k: u64, flags: &Flags, rec: &Rc<RefCell<Rec>>) {
 		b_seen: HashSet::new(),
 		a_remaining: s_txs.clone(),
 		cheat_txids: cheat_txs.iter().map(|t| t.compute_txid()).collect(),
+		commit_txid,
+		g_inputs: Vec::new(),
+		g_cluster_offered: false,
+		steer: !flags.rtquirk,
+		held_back: Vec::new(),
 	};
 	// the funding transaction confirmed long ago
 	chain.conf.insert(funding_tx.compute_txid(), 1);
@@ -1228,26 +1337,66 @@ fn run_scenario(seed: u64, k: u64, flags: &Flags, rec: &Rc<RefCell<Rec>>) {
 		}
 	}
 
+	// The test-only TestChainMonitor asserts after every ChannelMonitorUpdate that the monitor equals its
+	// serialization round trip. Two artefacts of `PackageTemplate::read` break that equality on a healthy
+	// monitor (`rtquirk` disables the driver's steering around them, to reproduce):
+	//  (1) it resets `counterparty_spendable_height` to 0 for a package holding a revoked HTLC output B
+	//      offered (`!htlc.offered`) whose cltv_expiry equals that height (a fix-up for data written by
+	//      LDK <= 0.1). The height of such a package is the confirmation height of the revoked commitment,
+	//      or, once merged with packages of HTLCs A offered (which happens when those expire within
+	//      COUNTERPARTY_CLAIMABLE_WITHIN_BLOCKS_PINNABLE), the smallest expiry among them.
+	//      `PackageTemplate::eq` tolerates the reset under cfg(test) only, which an external harness does
+	//      not have. The driver keeps the expiries of the two directions apart (even/odd, see `send`) and
+	//      does not let the revoked commitment confirm exactly at the expiry of an HTLC B offered in it.
+	//  (2) it recomputes `malleability` (pinnable / unpinnable cluster) from the FIRST input of a package,
+	//      while in memory a merged package keeps the cluster of the input it was merged into, and a
+	//      package split off it inherits that cluster. When HTLCs of both directions were merged into one
+	//      justice package (A's offered HTLCs close to expiry) and A then confirms a second-stage
+	//      transaction spending one of its inputs, the split-off / remaining packages differ from their
+	//      round trip. The driver predicts that package (`Chain::g_inputs`: the HTLCs B offered plus the
+	//      HTLCs A offered that expire within the pinnable window at the confirmation height, lowest
+	//      output index first, the others in descending order) and lets A hold back a second-stage
+	//      transaction exactly when confirming it would produce such a difference (`S_held_back` in the
+	//      output).
+	let pinnable = vh::timing_constants()
+		.into_iter()
+		.find(|(k, _)| *k == "COUNTERPARTY_CLAIMABLE_WITHIN_BLOCKS_PINNABLE")
+		.map(|(_, v)| v as u32)
+		.unwrap_or(12);
+	let cheated_htlcs: Vec<(bool, u32, u32)> = mon_htlcs.get(&cheat_number).cloned().unwrap_or_default();
+	if !flags.rtquirk {
+		let bad: Vec<u32> = cheated_htlcs.iter().filter(|(offered, _, _)| !*offered).map(|(_, c, _)| *c).collect();
+		while bad.contains(&(w.nodes[1].best_block_info().1 + 1)) {
+			empty_blocks(&mut w, &mut chain, rec, "skip", 1);
+		}
+		let h1 = w.nodes[1].best_block_info().1 + 1;
+		let mut g: Vec<(u32, bool)> = cheated_htlcs
+			.iter()
+			.filter(|(offered, cltv, _)| !*offered || *cltv <= h1 + pinnable)
+			.map(|(offered, _, vout)| (*vout, *offered))
+			.collect();
+		g.sort();
+		if g.iter().any(|(_, o)| *o) && g.iter().any(|(_, o)| !*o) {
+			chain.g_cluster_offered = g[0].1;
+			let mut rest: Vec<(u32, bool)> = g[1..].to_vec();
+			rest.reverse();
+			chain.g_inputs = vec![g[0]];
+			chain.g_inputs.extend(rest);
+		}
+	}
+
 	// block 1: the revoked commitment (+ A's second-stage transactions)
 	let h1 = w.nodes[1].best_block_info().1 + 1;
 	let mut block = vec![commit_tx.clone()];
 	if timing == "same_block" {
-		for t in s_txs.iter() {
-			if chain.mineable(t, h1, &block) {
-				block.push(t.clone());
-			}
-		}
+		chain.take_a(&s_txs, h1, &mut block);
 	}
 	rec.borrow_mut().s_early += (block.len() - 1) as u64;
 	mine(&mut w, &mut chain, rec, "cheat", block);
 	if timing == "next_block" {
 		let h2 = w.nodes[1].best_block_info().1 + 1;
 		let mut block: Vec<Transaction> = Vec::new();
-		for t in s_txs.iter() {
-			if chain.mineable(t, h2, &block) {
-				block.push(t.clone());
-			}
-		}
+		chain.take_a(&s_txs, h2, &mut block);
 		if !block.is_empty() {
 			rec.borrow_mut().s_early += block.len() as u64;
 			mine(&mut w, &mut chain, rec, "cheat2", block);
@@ -1258,7 +1407,9 @@ fn run_scenario(seed: u64, k: u64, flags: &Flags, rec: &Rc<RefCell<Rec>>) {
 	let mut finished = false;
 	for _round in 0..60 {
 		if rng.below(3) == 0 {
-			let n = 1 + rng.below(3) as u32;
+			// mostly 1-3 blocks; now and then a long stall, so that the slow (15 block) bump timer of the
+			// claim on A's balance output fires as well
+			let n = if rng.below(5) == 0 { 10 + rng.below(11) as u32 } else { 1 + rng.below(3) as u32 };
 			if rng.below(4) == 0 {
 				rec.borrow_mut().doing = "rebroadcast_pending_claims".to_string();
 				w.nodes[1].chain_monitor.chain_monitor.rebroadcast_pending_claims();
@@ -1275,7 +1426,18 @@ fn run_scenario(seed: u64, k: u64, flags: &Flags, rec: &Rc<RefCell<Rec>>) {
 			r.reloads += 1;
 		}
 		let h = w.nodes[1].best_block_info().1 + 1;
-		let a_cands: Vec<Transaction> = chain.a_remaining.iter().filter(|t| chain.mineable(t, h, &[])).cloned().collect();
+		let a_cands: Vec<Transaction> = {
+			let rem = chain.a_remaining.clone();
+			let mut ok = Vec::new();
+			for t in rem.iter() {
+				// each candidate on its own
+				let mut one = Vec::new();
+				if chain.take_a(std::slice::from_ref(t), h, &mut one) == 1 {
+					ok.push(t.clone());
+				}
+			}
+			ok
+		};
 		let a_turn = flags.late && !a_cands.is_empty() && rng.below(4) == 0;
 		let block = if a_turn {
 			rec.borrow_mut().s_race_won += 1;
@@ -1308,7 +1470,14 @@ fn run_scenario(seed: u64, k: u64, flags: &Flags, rec: &Rc<RefCell<Rec>>) {
 	// ---------------- summary ----------------
 	rec.borrow_mut().doing = "summary".to_string();
 	{
-		let lost = s_txs.iter().filter(|t| !chain.conf.contains_key(&t.compute_txid())).count() as u64;
+		// A's transactions that lost their input to one of B's transactions
+		let lost = s_txs
+			.iter()
+			.filter(|t| {
+				!chain.conf.contains_key(&t.compute_txid())
+					&& t.input.iter().any(|i| chain.spent.get(&i.previous_output).map(|by| chain.b_seen.contains(by)).unwrap_or(false))
+			})
+			.count() as u64;
 		rec.borrow_mut().s_lost = lost;
 	}
 	let mut unspent = Vec::new();
@@ -1335,6 +1504,7 @@ fn run_scenario(seed: u64, k: u64, flags: &Flags, rec: &Rc<RefCell<Rec>>) {
 	}
 	let fb = balances_b(&w);
 	let mut r = rec.borrow_mut();
+	r.held_back = chain.held_back.clone();
 	r.unspent = unspent;
 	r.final_balances = Some(fb);
 	// ManuallyDrop: never run Node::drop (test-suite expectations do not apply here)
@@ -1374,6 +1544,7 @@ struct Stats {
 	s_lost: u64,
 	s_race_won: u64,
 	exhausted: u64,
+	held_back: u64,
 	drained: u64,
 	not_drained: u64,
 	unspent_nonempty: u64,
@@ -1417,7 +1588,7 @@ fn run_one(seed: u64, k: u64, flags: &Flags, stats: &mut Stats) {
 	};
 	let r = rec;
 	println!(
-		"R {{\"k\":{},\"seed\":{},\"flags\":{},\"panic\":{},\"style\":{},\"reloaded\":{},\"reloads\":{},\"aged\":{},\"exhausted\":{},\"updates\":{},\"captures\":{},\"mon_commitments\":{},\"cheat\":{},\"funding\":{},\"blocks\":{},\"spendable\":{},\"unspent\":{},\"final_balances\":{}}}",
+		"R {{\"k\":{},\"seed\":{},\"flags\":{},\"panic\":{},\"style\":{},\"reloaded\":{},\"reloads\":{},\"aged\":{},\"exhausted\":{},\"updates\":{},\"captures\":{},\"mon_commitments\":{},\"cheat\":{},\"S_held_back\":{},\"funding\":{},\"blocks\":{},\"spendable\":{},\"unspent\":{},\"final_balances\":{}}}",
 		k,
 		seed,
 		js(&flags.raw),
@@ -1431,6 +1602,7 @@ fn run_one(seed: u64, k: u64, flags: &Flags, stats: &mut Stats) {
 		jarr(&r.captures),
 		jarr(&r.mon_commitments),
 		r.cheat.clone().unwrap_or_else(|| "null".to_string()),
+		jstrs(&r.held_back),
 		r.funding.clone().unwrap_or_else(|| "null".to_string()),
 		jarr(&r.blocks),
 		jarr(&r.spendable),
@@ -1480,6 +1652,7 @@ fn run_one(seed: u64, k: u64, flags: &Flags, stats: &mut Stats) {
 	stats.s_lost_scen += (r.s_lost > 0) as u64;
 	stats.s_race_won_scen += (r.s_race_won > 0) as u64;
 	stats.exhausted += r.exhausted as u64;
+	stats.held_back += (!r.held_back.is_empty()) as u64;
 	if let Some(fb) = &r.final_balances {
 		if fb.is_empty() && !r.spendable.is_empty() {
 			stats.drained += 1;
@@ -1488,7 +1661,15 @@ fn run_one(seed: u64, k: u64, flags: &Flags, stats: &mut Stats) {
 		}
 	}
 	// B's own to_remote output stays unspent legitimately (it is handed out as a spendable output)
-	if r.unspent.len() > 1 {
+	let unclaimed = r
+		.unspent
+		.iter()
+		.filter(|u| {
+			let key = u.split(',').next().unwrap_or("").trim_start_matches('{').to_string();
+			!key.is_empty() && !r.spendable.iter().any(|s| s.contains(&key))
+		})
+		.count();
+	if unclaimed > 0 {
 		stats.unspent_nonempty += 1;
 	}
 }
@@ -1526,15 +1707,15 @@ fn print_stats(st: &Stats) {
 		st.reloaded, st.reloads, st.aged, st.mid_cheat
 	);
 	eprintln!(
-		"h_justice: B txs total={} rebroadcasts={} verify_failures={} rounds_exhausted={}",
-		st.b_txs, st.rebroadcasts, st.verify_fail, st.exhausted
+		"h_justice: B txs total={} rebroadcasts={} verify_failures={} rounds_exhausted={} scenarios_with_S_tx_held_back(round-trip artefact)={}",
+		st.b_txs, st.rebroadcasts, st.verify_fail, st.exhausted, st.held_back
 	);
 	eprintln!(
-		"h_justice: coverage: nondust_htlcs_both_directions={} age>=5={} S_mined_before_B_reacts: scen={} txs={}; A_wins_race: scen={} txs={}; B_justice_first(S tx never mined): scen={} txs={}",
+		"h_justice: coverage: nondust_htlcs_both_directions={} age>=5={} S_mined_before_B_reacts: scen={} txs={}; A_wins_race: scen={} txs={}; B_justice_first(S tx lost its input to B): scen={} txs={}",
 		st.both_dirs, st.old_states, st.s_early_scen, st.s_early, st.s_race_won_scen, st.s_race_won, st.s_lost_scen, st.s_lost
 	);
 	eprintln!(
-		"h_justice: final balances empty and SpendableOutputs emitted={} otherwise={} scenarios_with_unclaimed_outputs(beyond to_remote)={}",
+		"h_justice: final balances empty and SpendableOutputs emitted={} otherwise={} scenarios_with_outputs_neither_spent_nor_reported_spendable={}",
 		st.drained, st.not_drained, st.unspent_nonempty
 	);
 }
